@@ -1212,6 +1212,8 @@ class World:
             r = h(it, full, a, k, n)
             if r is not _MISSING:
                 return r
+        if full.startswith("platform."):
+            return it.fresh_str("platform")
         it.unsupported("call of external " + full, n)
 
     def math_attr(self, it, name, node):
